@@ -11,7 +11,7 @@ import (
 func init() {
 	Registry["C34"] = RuleDef{Module: ".", Run: runC34,
 		Technique:   "normal-form check of the quorum arithmetic, guard rules on the success return and on the cancellation of the lock context, ordering rules (cancel before waiting for release; key deletion only after the monitor loop ended) over the SSA of locker.try and its closures",
-		Explanation: "Decides client-side necessary conditions only: (R34a) the number of keys is 2*majority-1 for the very majority that the counters are compared with, so two holders cannot both own a majority; (R34b) try reports success only when the deadline timer had not fired and fewer than a majority of acquisitions failed, the acquisition loop runs while both counters are below the majority and every iteration bumps exactly one of them by 1, the remaining keys up to totalcnt are attempted too and every attempted key gets a monitor; (R34c) the unlock function cancels the lock context before it waits for the keys to be released, and a monitor deletes its key only after its loop ended (context done, extension failed or locker closed); (R34d) once a majority of monitors have ended the lock context is cancelled before anything else happens, and `done` is closed exactly when all of them ended; (R34e) extension and deletion use the holder's own random value and key; (R34f) a failed extension ends the monitor: nothing inside the monitor loop resets the loop-carried error to nil; (R34g) the gate's wake-up token is consumed only by the blocking wait of WithContext, never drained between a failed try and the wait.",
+		Explanation: "Decides client-side necessary conditions only: (R34a) the number of keys is 2*majority-1 for the very majority that the counters are compared with, so two holders cannot both own a majority; (R34b) try reports success only when the deadline timer had not fired and fewer than a majority of acquisitions failed, the acquisition loop runs while both counters are below the majority and every iteration bumps exactly one of them by 1, the remaining keys up to totalcnt are attempted too and every attempted key gets a monitor; (R34c) the unlock function cancels the lock context before it waits for the keys to be released, and a monitor deletes its key only after its loop ended (context done, extension failed or locker closed); (R34d) once a majority of monitors have ended the lock context is cancelled before anything else happens, and `done` is closed exactly when all of them ended; (R34e) extension and deletion use the holder's own random value and key; (R34f) a failed extension ends the monitor: nothing inside the monitor loop resets the loop-carried error to nil; (R34g) the gate's wake-up token is consumed only by the blocking wait of WithContext, never drained between a failed try and the wait; (R34h) the lock scripts, which are built retryable, contain no non-idempotent command (lint over the script text).",
 		NotDecided:  "mutual exclusion itself (server-side SET NX / scripts, key expiry against wall-clock time, cross-process schedules), promptness of loss detection, wake-up of WithContext waiters."}
 }
 
@@ -67,6 +67,7 @@ func runC34(r *Report) {
 		}
 		r.Ob("R34a", fn, "majority-positive", fn.Pos(), pos, "a non-positive KeyMajority is replaced by a positive default")
 	}
+	r.Anchor("R34h", "lock scripts", scriptConstructorRule(r, "R34h", "rueidis/rueidislock", "") >= 6)
 	try := r.FnAnchor("R34b", L+"(*locker).try")
 	if try == nil {
 		return
